@@ -259,6 +259,7 @@ let handle_io (toks : string list) : string =
            (hex_of_bytes p'.pt_out.w_out) (hex_of_bytes p'.pt_in.r_content))
   | "OD" :: k :: rest ->
     let (signs, rest) = parse_signs (int_of_string k) rest in
+    let rest = (match rest with "|" :: r -> r | r -> r) in
     let (prior, rest) = split_at "|" rest in
     let (input, nsteps, wsched) = match rest with
       | i :: n :: ws -> (i, int_of_string n, ws) | _ -> failwith "bad OD" in
@@ -322,7 +323,7 @@ let handle_io (toks : string list) : string =
   | _ -> "BADCASE"
 
 let handle (line : string) : string =
-  match String.split_on_char ' ' line with
+  match List.filter (fun x -> x <> "") (String.split_on_char ' ' line) with
   | ["ENC"; a; t; d] | ["ENCB"; a; t; d] ->
     let f = { f_addr = num a; f_type = num t; f_data = bytes_of_hex d } in
     Printf.sprintf "%s %s" (hex_of_bytes (encode f)) (hex_of_bytes (encode_nl f))
@@ -395,15 +396,18 @@ let handle (line : string) : string =
        let idtok = match page_id !p with None -> "P" | Some i -> pn i in
        Printf.sprintf "%s# %s %s %s %s" (Buffer.contents out) idtok (pn !p.p_w) (pn !p.p_h)
          (hex_of_bytes !p.p_bytes))
-  | "VS" :: a :: st :: msgs ->
+  | ("VS" | "VSL") :: a :: st :: msgs ->
+    let last_only = (List.hd (String.split_on_char ' ' line) = "VSL") in
     let s = ref (vinit (num a) (style_of_str st)) in
     let out = Buffer.create 256 in
     let dead = ref false in
-    List.iter (fun m -> if not !dead then
+    let n = List.length msgs in
+    List.iteri (fun i m -> if not !dead then
                   match vstep !s (msg_of_str m) with
                   | None -> dead := true; Buffer.add_string out "PANIC "
                   | Some (s', r) -> s := s';
-                    Buffer.add_string out (Printf.sprintf "%s/%s " (str_omsg r) (obs s'))) msgs;
+                    if (not last_only) || i + 1 = n then
+                      Buffer.add_string out (Printf.sprintf "%s/%s " (str_omsg r) (obs s'))) msgs;
     Printf.sprintf "%s# %s" (Buffer.contents out) (str_pages !s.v_pages)
   | "BUS" :: k :: rest ->
     let (signs, msgs) = parse_signs (int_of_string k) rest in
